@@ -95,7 +95,7 @@ def render(fn, width=400):
 
 # --------------------------------------------------------------------------- tolerant parsers
 
-_CELL = re.compile(r"^(-?\d+)(?: \(([+-]\d+)\))?$")
+_CELL = re.compile(r"^(-?\d+)(?:\s*[\(\[]?\s*([+-]\d+)\s*[\)\]]?)?$")  # 'n', 'n (+d)', also 'n [+d]' / 'n +d'
 
 
 def _cell(text):
